@@ -333,6 +333,14 @@ def _extended(chk):
             v = b.get(flag, init.defaults().get(flag))
             chk.check(isinstance(v, ast.Constant) and v.value is False, "WIRE.extended.once", e, call,
                       construct=f"inner EOF of ExtendedEOF: {flag}=False", why=f"{flag} is applied a second time by the inner EOF (the preprocessor of the outer model has applied the user's choice already)")
+    if emb:
+        from .common import sample_order_kept
+        # the lag mechanism: `.shift({sample: -i})` copies (collected in a list, which provenance does not follow): judge what is shifted
+        shifts = [c for c in ef.calls() if isinstance(c.func, ast.Attribute) and c.func.attr == "shift"]
+        chk.require(bool(shifts), "ExtendedEOF._fit_algorithm: the shifted copies (.shift) vanished")
+        for sh in shifts:
+            sample_order_kept(chk, "WIRE.extended.order", e, ef, sh.func.value, "the series reaches the delay embedding in the caller's order",
+                              "the shifted copies are formed: a window no longer holds consecutive samples of the caller's series")
     adopt = [st for st in ef.statements() if isinstance(st, ast.Assign) and is_self_attr(st.targets[0], "data") and norm(st.value).endswith(".data")]
     chk.check(len(adopt) == 1, "WIRE.extended.data", e, adopt[0] if adopt else e.node,
               construct="self.data = model.data", why="ExtendedEOF no longer adopts the inner EOF's results")
